@@ -768,7 +768,10 @@ class SFloat:
             if not isnp:
                 if eng.branch(z3.fpIsZero(b)):
                     raise ZeroDivisionError("float division by zero")
-            return SFloat(eng, z3.fpDiv(RNE, a, b), isnp)
+            r = SFloat(eng, z3.fpDiv(RNE, a, b), isnp)
+            if not _is_const(b):
+                r.fpquot = True
+            return r
         iszero = b == z3.RealVal(0)
         if eng.branch(iszero):
             if isnp:
@@ -849,10 +852,35 @@ class SFloat:
         eng.memo[key] = (n, st)
         return n
 
+    def _fp_roundint(self, rm, what):
+        """fp mode: ceil/floor.  With a symbolic divisor the result is concretised (bounded); otherwise it stays an
+        integer-valued double (exact for |x| < 2**53, which the harness assumes)."""
+        eng = self.eng
+        r = z3.fpRoundToIntegral(rm, self.t)
+        if getattr(self, "fpquot", False):
+            lo, hi = eng.int_lo, eng.int_hi
+            i = len(eng.decisions)
+            if i < len(eng.prefix):
+                d = eng.prefix[i]
+            else:
+                cands = list(range(lo, hi + 1)) + ["oob"]
+                d = cands[0]
+                for alt in reversed(cands[1:]):
+                    eng.pending.append(eng.decisions + [alt])
+            eng.decisions.append(d)
+            if d == "oob":
+                eng.add(z3.Or(z3.fpLT(r, z3.FPVal(float(lo), F64)), z3.fpGT(r, z3.FPVal(float(hi), F64)), z3.fpIsNaN(r)))
+                eng._raise(PathAbort(f"{what}(quotient) outside the int bound"))
+            eng.add(z3.fpEQ(r, z3.FPVal(float(d), F64)))
+            return d
+        out = SFloat(eng, r, False)
+        out.intval = True
+        return out
+
     def __ceil__(self):
         eng = self.eng
         if eng.mode != "real":
-            eng._raise(Unsupported("ceil in fp mode outside a kernel model"))
+            return self._fp_roundint(z3.RTP(), "ceil")
         q = getattr(self, "quot", None)
         if q is not None:
             a, b = q
@@ -892,7 +920,7 @@ class SFloat:
     def __floor__(self):
         eng = self.eng
         if eng.mode != "real":
-            eng._raise(Unsupported("floor in fp mode outside a kernel model"))
+            return self._fp_roundint(z3.RTN(), "floor")
         q = getattr(self, "quot", None)
         if q is not None:
             a, b = q
